@@ -136,6 +136,39 @@ def wide_evidence(root, tab, points, width, rs):
     return None, len(rows)
 
 
+def far_tail(root, tab, points, width, rs):
+    """one batch holding an ordinary row and a row 42-55 standard deviations out on every Gaussian variable (log-likelihood
+    around -1000: no linear-domain number holds it, the log-domain query must): both against an independent log-domain
+    evaluation, and the far row alone must get the value it gets in the batch."""
+    from deeprob.spn.structure.leaf import Gaussian
+    from deeprob.spn.algorithms.inference import log_likelihood
+    gl = {}
+    for o in tab.objs:
+        if isinstance(o, Gaussian):
+            gl.setdefault(int(o.scope[0]), o)
+    if not gl:
+        return None, 0
+    dom = tab.domains(); scope = sorted(tab.root_scope())
+    base = {u: int(rs.choice(dom[u])) for u in scope}
+    near = np.array(G.np_row(base, width, points), dtype=np.float64); far = near.copy()
+    for v, o in gl.items():
+        far[v] = float(o.mean) + float(rs.choice([-1.0, 1.0])) * float(rs.uniform(42.0, 55.0)) * float(o.stddev)
+    X = np.array([near, far], dtype=np.float32)
+    with np.errstate(all="ignore"):
+        LLb = log_likelihood(root, X).reshape(-1).astype(np.float64)
+        LLs = log_likelihood(root, X[1:2]).reshape(-1).astype(np.float64)
+    ref = np.array([G.py_log_likelihood(root, X[0].astype(np.float64)), G.py_log_likelihood(root, X[1].astype(np.float64))])
+    if not np.all(np.isfinite(ref)):
+        return None, 0
+    for name, got, want in (("in the batch", LLb, ref), ("alone", LLs, ref[1:2])):
+        ok = np.abs(got - want) <= 1e-3 * np.abs(want) + 1e-3
+        if not ok.all():
+            i = int(np.argmin(ok))
+            return dict(query=f"log_likelihood, far row {name}", rows=[[float(t) for t in r] for r in X], returned=[float(t) for t in got],
+                        circuit_semantics_log_domain=[float(t) for t in want]), 2
+    return None, 2
+
+
 def doms_coq(dom):
     return C.coq_list([f"({v}%nat, " + C.coq_list([C.zlit(x) for x in d]) + ")" for v, d in sorted(dom.items())])
 
@@ -316,6 +349,12 @@ def run(pid, tier, seed, replay, mode):
             if bad[0] and dist.get("wide_viol", 0) < 3:
                 dist["wide_viol"] = dist.get("wide_viol", 0) + 1
                 rep.violation(dict(kind="float64-evidence-evaluated-at-a-rounded-assignment", circuit=tab.brief(), **bad[0]), True)
+        if mode == "full" and points:
+            bad = far_tail(root, tab, points, width, rs)
+            dist["far_tail_rows"] = dist.get("far_tail_rows", 0) + bad[1]
+            if bad[0] and dist.get("tail_viol", 0) < 3:
+                dist["tail_viol"] = dist.get("tail_viol", 0) + 1
+                rep.violation(dict(kind="log-likelihood-of-a-far-tail-row", circuit=tab.brief(), **bad[0]), True)
         # python-side clause of C02: a row with every variable missing has log-likelihood exactly 0
         if mode == "marg":
             for c, ll in zip(rows, LL):
